@@ -345,6 +345,12 @@ impl SDJWTVerifier {
                     .ok_or(Error::ConversionError("str".to_string()))?
                     .to_owned();
                 let value = disclosure[2].clone();
+                if key == SD_DIGESTS_KEY || key == SD_LIST_PREFIX {
+                    return Err(Error::InvalidDisclosure(format!(
+                        "Disclosed claim name must not be `{}`",
+                        key
+                    )));
+                }
                 if pre_output.contains_key(&key) {
                     return Err(Error::DuplicateKeyError(key.to_string()));
                 }
